@@ -376,5 +376,6 @@ func init() {
 		if !r.MergeJobs(res) {
 			r.Exhaustive = false
 		}
+		overlapPart(r, []string{"device", "device-contract"})
 	})
 }
